@@ -668,3 +668,595 @@ Example function_target_point :
   | Err _ => False
   end.
 Proof. vm_compute. split; reflexivity. Qed.
+
+(* ================================================================== *)
+(* FOLLOW-UP: function targets closed (composition with C19_function_any_name = C03_partial for any identifier as *)
+(* function name, and with the docstring link of C03Ext), the install phase, target by target                     *)
+(* ================================================================== *)
+From DT Require C06Spec C03DocLinkDefs C03DocLinkMain C03DocLink C19ComposeFacts ParseSig.
+
+(* same_interface_fn (lookup by name, strict defaults, kind) implies the positional relation of the property *)
+Lemma list_eqb_str_eq : forall a b : list str, list_eqb str_eqb a b = true -> a = b.
+Proof.
+  induction a as [|x a IH]; intros [|y b] H; cbn in H; try discriminate; [reflexivity|].
+  apply andb_true_iff in H. destruct H as [H1 H2]. apply str_eqb_eq in H1. subst y. rewrite (IH b H2). reflexivity.
+Qed.
+
+Lemma same_param_fn_weaken : forall a b, C03Spec.same_param_fn a b = true -> same_param a b = true.
+Proof.
+  intros a b H. unfold C03Spec.same_param_fn in H. unfold same_param.
+  apply andb_true_iff in H. destruct H as [H Hd]. rewrite H. cbn [andb].
+  unfold default_same in Hd. unfold default_ok.
+  destruct (g_default a) as [v|]; destruct (g_default b) as [x|]; try discriminate Hd; [exact Hd|reflexivity].
+Qed.
+
+Lemma same_params_fn_weaken : forall a b,
+    NoDup (map fst a) -> C03Spec.same_params_fn a b = true -> same_params same_param a b = true.
+Proof.
+  intros a b Hnd H. unfold C03Spec.same_params_fn in H. apply andb_true_iff in H. destruct H as [Hk Hf].
+  apply list_eqb_str_eq in Hk. unfold od_keys in Hk. rewrite forallb_forall in Hf.
+  revert b Hk Hf. induction a as [|[n1 p1] a IH]; intros [|[n2 p2] b] Hk Hf; cbn [map] in Hk; try discriminate Hk;
+    [reflexivity|].
+  injection Hk as Hn Hk. cbn [fst] in Hn. subst n2. cbn [same_params].
+  inversion Hnd as [|x l Hnotin Hnd']. subst x l.
+  rewrite str_eqb_refl. cbn [andb].
+  pose proof (Hf (n1, p1) (or_introl eq_refl)) as H1. cbn [fst snd od_get] in H1. rewrite str_eqb_refl in H1.
+  rewrite (same_param_fn_weaken _ _ H1). cbn [andb].
+  apply (IH Hnd' b Hk). intros kv Hin. pose proof (Hf kv (or_intror Hin)) as H2. cbn [od_get] in H2.
+  destruct (str_eqb (fst kv) n1) eqn:E; [|exact H2].
+  apply str_eqb_eq in E. contradiction Hnotin. rewrite <- E. apply in_map. exact Hin.
+Qed.
+
+Lemma same_interface_fn_weaken : forall ft i r,
+    NoDup (map fst (ir_params i)) -> C03Spec.same_interface_fn ft i r = true -> same_interface i r = true.
+Proof.
+  intros ft i r Hnd H. unfold C03Spec.same_interface_fn in H.
+  apply andb_true_iff in H. destruct H as [H _]. apply andb_true_iff in H. destruct H as [Hp Hr].
+  unfold same_interface. rewrite (same_params_fn_weaken _ _ Hnd Hp). cbn [andb].
+  unfold C03Spec.same_returns_fn in Hr. unfold same_returns.
+  destruct (fget (ir_returns i)) as [x|]; destruct (fget (ir_returns r)) as [y|]; try discriminate Hr;
+    [apply same_param_fn_weaken; exact Hr|reflexivity].
+Qed.
+
+(* the docstring constant of the emitted function *)
+Lemma emit_function_doc : forall pt i fn ft it kw text s i2,
+    emit_function pt i fn ft it kw (Ok text) = Ok (s, i2) ->
+    exists n a rest r, s = SFunc n a (SExpr (EConst (VStr (set_value_str text))) :: rest) [] r.
+Proof.
+  intros pt i fn ft it kw text s i2 H. unfold emit_function in H.
+  apply EmitAstFacts.bind_Ok in H. destruct H as [fname [_ H]].
+  apply EmitAstFacts.bind_Ok in H. destruct H as [ftype [_ H]].
+  apply EmitAstFacts.bind_Ok in H. destruct H as [afp [_ H]].
+  apply EmitAstFacts.bind_Ok in H. destruct H as [dfp [_ H]].
+  apply EmitAstFacts.bind_Ok in H. destruct H as [ib [_ H]].
+  apply EmitAstFacts.bind_Ok in H. destruct H as [rv [_ H]].
+  cbn [bind] in H.
+  apply EmitAstFacts.bind_Ok in H. destruct H as [rets [_ H]].
+  destruct fname as [n|]; [|discriminate H]. injection H as H _. subst s.
+  unfold set_value. do 4 eexists. reflexivity.
+Qed.
+
+Lemma reparse_stmt_doc : forall n a x rest dc r s',
+    C03Spec.reparse_stmt (SFunc n a (SExpr (EConst (VStr x)) :: rest) dc r) = Ok s' ->
+    exists a' rest' dc' r', s' = SFunc n a' (SExpr (EConst (VStr x)) :: rest') dc' r'.
+Proof.
+  intros n a x rest dc r s' H. unfold C03Spec.reparse_stmt in H.
+  destruct (negb (C06Spec.is_identifier n)); [discriminate H|].
+  apply EmitAstFacts.bind_Ok in H. destruct H as [a' [_ H]].
+  apply EmitAstFacts.bind_Ok in H. destruct H as [b' [Hb H]].
+  apply EmitAstFacts.bind_Ok in H. destruct H as [dc' [_ H]].
+  apply EmitAstFacts.bind_Ok in H. destruct H as [r' [_ H]].
+  injection H as H. subst s'.
+  cbn in Hb. apply EmitAstFacts.bind_Ok in Hb. destruct Hb as [rest' [_ Hb]]. injection Hb as Hb. subst b'.
+  do 4 eexists. reflexivity.
+Qed.
+
+Lemma function_docstring_text_kind : forall w pt ft i,
+    C03DocLinkDefs.function_docstring_text w (sync_fopts pt []) i
+    = C03DocLinkDefs.function_docstring_text w (sync_fopts pt ft) i.
+Proof. reflexivity. Qed.
+
+(* emit.function -> (ast.unparse -> ast.parse) -> parse.function at the node, docstring read from the node; any identifier
+   as name, function type ft, the options conformance leaves at their defaults *)
+Theorem function_round_trip_canon : forall w pt i name ft,
+    guard_C09_function_core w pt i name ft = true ->
+    exists n n' i',
+      emit_function_inst w pt i name (Some ft) = Ok n
+      /\ C03Spec.reparse_stmt n = Ok n'
+      /\ parse_function_node n' = Ok i'
+      /\ C03Spec.same_interface_fn ft i i' = true
+      /\ same_interface i i' = true.
+Proof.
+  intros w pt i name ft Hg. unfold guard_C09_function_core in Hg.
+  apply andb_true_iff in Hg. destruct Hg as [Hg Huq]. apply andb_true_iff in Hg. destruct Hg as [Hg Hl].
+  apply andb_true_iff in Hg. destruct Hg as [Hid Hg].
+  set (o := sync_fopts pt ft) in *.
+  destruct (C03DocLinkMain.C03_doc_link_lemma w o i Hg Hl) as [text [d [Ht [Hd Ha]]]].
+  destruct (C19ComposeFacts.FnPart.C03_partial_named name o i text d Hid Hg Ha) as [s [s' [r [He [_ [Hre [Hp Hs]]]]]]].
+  change (C03Spec.fo_pt o) with pt in He. change (C03Spec.fo_kind o) with ft in He, Hs.
+  change (C03Spec.fo_inline o) with true in He. change (C03Spec.fo_kwonly o) with true in He.
+  unfold fn_text_unquoted in Huq. fold o in Huq. rewrite Ht in Huq. apply str_eqb_eq in Huq.
+  destruct (emit_function_doc _ _ _ _ _ _ _ _ _ He) as [n0 [a0 [rest [r0 Es]]]].
+  rewrite Huq in Es.
+  rewrite Es in Hre. destruct (reparse_stmt_doc _ _ _ _ _ _ _ Hre) as [a' [rest' [dc' [r' Es']]]].
+  rewrite <- Es in Hre.
+  exists s, s', r. split.
+  - unfold emit_function_inst. rewrite (function_docstring_text_kind w pt ft i). fold o. rewrite Ht.
+    match goal with |- bind ?x _ = _ => replace x with (@Ok (stmt * ir) (s, i)) by (symmetry; exact He) end.
+    reflexivity.
+  - split; [exact Hre|]. split; [|split; [exact Hs|]].
+    + rewrite Es'. unfold parse_function_node. cbn [docstring_of]. rewrite Hd. cbn [bind]. rewrite <- Es'. exact Hp.
+    + destruct (C03DocLink.guard_agree_facts o i Hg) as [Hnd _].
+      apply (same_interface_fn_weaken ft i r Hnd Hs).
+Qed.
+
+(* with the emitted FunctionDef a fixed point of the re-parse: the round trip at the emitted node itself *)
+Theorem function_round_trip_node : forall w pt i name ft,
+    guard_C09_function w pt i name ft = true ->
+    exists n i',
+      emit_function_inst w pt i name (Some ft) = Ok n
+      /\ parse_function_node n = Ok i'
+      /\ C03Spec.same_interface_fn ft i i' = true
+      /\ same_interface i i' = true.
+Proof.
+  intros w pt i name ft Hg. unfold guard_C09_function in Hg. apply andb_true_iff in Hg. destruct Hg as [Hc Hf].
+  destruct (function_round_trip_canon w pt i name ft Hc) as [n [n' [i' [He [Hre [Hp [Hs Hs2]]]]]]].
+  unfold fn_reparse_fixed in Hf. rewrite He, Hre in Hf. apply EmitAstFacts.stmt_eqb_eq in Hf. subst n'.
+  exists n, i'. split; [exact He|]. split; [exact Hp|]. split; assumption.
+Qed.
+
+Lemma get_function_type_kinds : forall a, In (get_function_type a) function_kinds.
+Proof.
+  intros a. unfold get_function_type, function_kinds. destruct (ar_args a) as [|x l]; [left; reflexivity|].
+  destruct (str_eqb (a_name x) (L "self")) eqn:E1.
+  - apply str_eqb_eq in E1. cbn [orb]. rewrite E1. right. left. reflexivity.
+  - destruct (str_eqb (a_name x) (L "cls")) eqn:E2; cbn [orb].
+    + apply str_eqb_eq in E2. rewrite E2. right. right. left. reflexivity.
+    + left. reflexivity.
+Qed.
+
+(* what emit_inst does for a function target at the options read from a found node *)
+Lemma emit_inst_function_found : forall w pt i o search n,
+    emit_inst w pt KFunction i (opts_inst (Some o) search KFunction) = Ok n ->
+    exists ft, In ft function_kinds
+               /\ emit_function_inst w pt i (last search (default_name KFunction)) (Some ft) = Ok n.
+Proof.
+  intros w pt i o search n He. cbn [emit_inst] in He. unfold opts_inst in He. cbn [so_ftype so_name] in He.
+  destruct o as [nm a b d r| | | | | |]; cbn [bind] in He; try discriminate He.
+  exists (get_function_type a). split; [apply get_function_type_kinds|exact He].
+Qed.
+
+Lemma RT_at_function : forall w pt it ww search i,
+    guard_C09_function_found w pt i (last search (default_name KFunction)) = true ->
+    RT_at w pt it ww KFunction search i.
+Proof.
+  intros w pt it ww search i Hg o n He.
+  destruct (emit_inst_function_found _ _ _ _ _ _ He) as [ft [Hin He1]].
+  unfold guard_C09_function_found in Hg. rewrite forallb_forall in Hg.
+  destruct (function_round_trip_node w pt i _ ft (Hg ft Hin)) as [n' [i' [He' [Hp [_ Hs]]]]].
+  assert (X : @Ok stmt n = Ok n').
+  { transitivity (emit_function_inst w pt i (last search (default_name KFunction)) (Some ft));
+      [symmetry; exact He1|exact He']. }
+  injection X as X. subst n'. exists i'. split; [exact Hp|exact Hs].
+Qed.
+
+(* ---- without the fixed-point clause: two parse-transparency premises ---- *)
+
+(* the parser reads from the written form what it reads from ast.parse(ast.unparse(n)): black is transparent *)
+Definition WRITTEN_REPARSE_law (as_written : stmt -> stmt) (w : nat) (pt : ptable) : Prop :=
+  forall i o n n', emit_inst w pt KFunction i o = Ok n -> C03Spec.reparse_stmt n = Ok n' ->
+                   parse_function_node (as_written n) = parse_function_node n'.
+
+(* the parser reads from the emitted node what it reads from its re-parse (negative numbers: Constant(-5) against
+   UnaryOp(USub, 5)); concerns the disjunct cmp_ast(found, emitted) only *)
+Definition EMITTED_REPARSE_law (w : nat) (pt : ptable) : Prop :=
+  forall i o n n', emit_inst w pt KFunction i o = Ok n -> C03Spec.reparse_stmt n = Ok n' ->
+                   parse_function_node n = parse_function_node n'.
+
+Theorem stable_function_target_canon :
+    forall (tree : Type) (parse_file : path -> bytes -> outcome tree) (find : list str -> tree -> option stmt)
+      (as_written : stmt -> stmt) (w : nat) (pt : ptable) (it ww : bool) (fs : fsys) (file : path)
+      (search : list str) (i : ir),
+    WRITTEN_REPARSE_law as_written w pt -> EMITTED_REPARSE_law w pt ->
+    guard_C09_function_found_core w pt i (last search (default_name KFunction)) = true ->
+    stable stmt tree ir sync_opts (emit_inst w pt) parse_file find (cmp_inst as_written) opts_inst type_ok_inst
+           fs file search KFunction i ->
+    agrees_at tree parse_file find it ww fs file search KFunction i.
+Proof.
+  intros tree parse_file find as_written w pt it ww fs file search i HW HE Hg
+         [content [t [o [n [H1 [H2 [H3 [H4 [_ [_ H7]]]]]]]]]].
+  destruct (emit_inst_function_found _ _ _ _ _ _ H4) as [ft [Hin He1]].
+  unfold guard_C09_function_found_core in Hg. rewrite forallb_forall in Hg.
+  destruct (function_round_trip_canon w pt i _ ft (Hg ft Hin)) as [n0 [n' [i' [He' [Hre [Hp [_ Hs]]]]]]].
+  assert (X : @Ok stmt n = Ok n0).
+  { transitivity (emit_function_inst w pt i (last search (default_name KFunction)) (Some ft));
+      [symmetry; exact He1|exact He']. }
+  injection X as X. subst n0.
+  exists content, t, o, i'. split; [exact H1|]. split; [exact H2|]. split; [exact H3|]. split; [|exact Hs].
+  cbn [parse_node_inst]. destruct (cmp_inst_true _ _ _ H7) as [E|E]; subst o.
+  - rewrite (HE _ _ _ _ H4 Hre). exact Hp.
+  - rewrite (HW _ _ _ _ H4 Hre). exact Hp.
+Qed.
+
+(* ------------------------------------------------------------------ *)
+(* a run, target by target, knowing what the target file held BEFORE the run *)
+(* ------------------------------------------------------------------ *)
+
+Section Pre.
+  Variables (node tree irT opts : Type).
+  Variable emit_k : kind -> irT -> opts -> outcome node.
+  Variable parse_file : path -> bytes -> outcome tree.
+  Variable find : list str -> tree -> option node.
+  Variable rewrite : list str -> node -> tree -> tree * bool.
+  Variable cmp : node -> node -> bool.
+  Variable render_node : node -> outcome bytes.
+  Variable render_tree : tree -> outcome bytes.
+  Variable opts_of : option node -> list str -> kind -> opts.
+  Variable type_ok : kind -> node -> bool.
+
+  Notation conf := (conform emit_k parse_file find rewrite cmp render_node render_tree opts_of type_ok).
+  Notation conf_files := (conform_files emit_k parse_file find rewrite cmp render_node render_tree opts_of type_ok).
+  Notation conf_kinds := (conform_kinds emit_k parse_file find rewrite cmp render_node render_tree opts_of type_ok).
+
+  (* G c fs' file ...: c = what the file held when its conform call was made *)
+  Variable G : option bytes -> fsys -> path -> list str -> kind -> irT -> Prop.
+  Hypothesis G_ext : forall c fs1 fs2 file s k ir,
+      fs_get file fs1 = fs_get file fs2 -> G c fs1 file s k ir -> G c fs2 file s k ir.
+  Variable faults : path -> fault.
+  Hypothesis STEP_G : forall fs file s k ir fs' b pr,
+      s <> [] -> conf fs file s k ir (faults file) = (fs', Ok b, pr) -> G (fs_get file fs) fs' file s k ir.
+
+  Lemma conform_files_establish_pre : forall truth files search k ir fs acc printed fs' acc' pr',
+      search <> [] ->
+      conf_files fs truth files search k ir faults acc printed = (fs', Ok acc', pr') ->
+      NoDup (proc truth files) -> clash_free truth files ->
+      forall file, In file files -> file <> truth -> G (fs_get file fs) fs' file search k ir.
+  Proof.
+    intros truth. induction files as [|f0 rest IH];
+      intros search k ir fs acc printed fs' acc' pr' Hs H ND CF file Hin Hne.
+    - destruct Hin.
+    - cbn [conform_files] in H. destruct (str_eqb f0 truth) eqn:E.
+      + apply str_eqb_eq in E. subst f0. unfold clash_free in CF. rewrite proc_cons_eq in ND, CF.
+        destruct Hin as [E0|Hin]; [contradiction Hne; symmetry; exact E0|].
+        apply (IH _ _ _ _ _ _ _ _ _ Hs H ND CF file Hin Hne).
+      + apply str_eqb_neq in E. unfold clash_free in CF. rewrite (proc_cons_ne _ _ _ E) in ND, CF.
+        destruct (conf fs f0 search k ir (faults f0)) as [[fs2 r2] pr2] eqn:EC.
+        destruct r2 as [flag|e]; [|discriminate H].
+        inversion ND as [|x l Hnotin ND']. subst x l.
+        assert (CF' : clash_free truth rest).
+        { intros t t' Ht Ht'. apply CF; right; assumption. }
+        destruct Hin as [E0|Hin].
+        * subst file. pose proof (STEP_G _ _ _ _ _ _ _ _ Hs EC) as HG2.
+          apply (G_ext _ fs2 fs'); [|exact HG2]. symmetry.
+          refine (conform_files_frame _ _ _ _ _ _ _ _ _ _ _ _ _ (fun q => q = f0) truth faults _ _ _ _ _ _ _ _ _ _ _ H
+                                      f0 eq_refl).
+          intros f Hf Hfne q Hq. subst q.
+          assert (Hfp : In f (proc truth rest)) by (apply proc_In; split; assumption).
+          split.
+          -- intros E1. subst f. contradiction.
+          -- intros E1. apply (CF f f0); [right; exact Hfp|left; reflexivity|].
+             symmetry. exact E1.
+        * assert (Hfp : In file (proc truth rest)) by (apply proc_In; split; assumption).
+          assert (Hpre : fs_get file fs2 = fs_get file fs).
+          { apply (conform_frame _ _ _ _ _ _ _ _ _ _ _ _ _ _ _ _ _ _ _ _ _ _ EC).
+            - intros E1. subst file. contradiction.
+            - intros E1. apply (CF f0 file); [left; reflexivity|right; exact Hfp|]. symmetry. exact E1. }
+          rewrite <- Hpre. apply (IH _ _ _ _ _ _ _ _ _ Hs H ND' CF' file Hin Hne).
+  Qed.
+
+  Definition all_G_pre (fs fs' : fsys) (a : sync_args) (truth : path) (ks : list kind) (ir : irT) : Prop :=
+    forall k, In k ks -> forall files, sa_files a k = Some files ->
+      exists nm, name_of a k = Ok nm
+                 /\ forall file, In file files -> file <> truth ->
+                                 G (fs_get file fs) fs' file (strip_split [ch 46] nm) k ir.
+
+  Lemma conform_kinds_establish_pre : forall a truth ir ks fs acc printed fs' acc' pr',
+      conf_kinds fs a truth ks ir faults acc printed = (fs', Ok acc', pr') ->
+      NoDup (proc truth (targets_of a ks)) -> clash_free truth (targets_of a ks) ->
+      all_G_pre fs fs' a truth ks ir.
+  Proof.
+    intros a truth ir. induction ks as [|k0 rest IH];
+      intros fs acc printed fs' acc' pr' H ND CF.
+    - intros k [].
+    - cbn [conform_kinds] in H. unfold clash_free in CF. unfold targets_of in ND, CF.
+      cbn [flat_map] in ND, CF. fold (targets_of a rest) in ND, CF.
+      destruct (sa_files a k0) as [files0|] eqn:EF.
+      + rewrite proc_app in ND, CF.
+        destruct (NoDup_app_inv _ _ _ ND) as [ND0 [NDr Hdisj]].
+        assert (CF0 : clash_free truth files0).
+        { intros t t' Ht Ht'. apply CF; apply in_or_app; left; assumption. }
+        assert (CFr : clash_free truth (targets_of a rest)).
+        { intros t t' Ht Ht'. apply CF; apply in_or_app; right; assumption. }
+        destruct (name_of a k0) as [nm|e] eqn:EN; [|discriminate H].
+        destruct (conf_files fs truth files0 (strip_split [ch 46] nm) k0 ir faults acc printed)
+          as [[fs2 r2] pr2] eqn:EC.
+        destruct r2 as [acc2|e]; [|discriminate H].
+        pose proof (IH _ _ _ _ _ _ H NDr CFr) as HGr.
+        intros k Hk files Hfiles.
+        destruct (kind_eq_dec k k0) as [Ek|Ek].
+        * subst k. rewrite EF in Hfiles. injection Hfiles as Hfiles. subst files.
+          exists nm. split; [exact EN|]. intros file Hin Hne.
+          pose proof (conform_files_establish_pre _ _ _ _ _ _ _ _ _ _ _
+                        (strip_split_nonnil [ch 46] nm) EC ND0 CF0 file Hin Hne) as HG2.
+          apply (G_ext _ fs2 fs'); [|exact HG2]. symmetry.
+          refine (conform_kinds_frame _ _ _ _ _ _ _ _ _ _ _ _ _ (fun q => q = file) truth faults _ _ _ _ _ _ _ _ _ _ H
+                                      file eq_refl).
+          assert (Hfp : In file (proc truth files0)) by (apply proc_In; split; assumption).
+          intros f Hf Hfne q Hq. subst q.
+          assert (Hfr : In f (proc truth (targets_of a rest)))
+            by (apply proc_In; split; assumption).
+          split.
+          -- intros E1. subst f. apply (Hdisj file Hfp Hfr).
+          -- intros E1. apply (CF f file); [apply in_or_app; right; exact Hfr
+                                           |apply in_or_app; left; exact Hfp|].
+             symmetry. exact E1.
+        * destruct Hk as [Hk|Hk]; [contradiction Ek; symmetry; exact Hk|].
+          destruct (HGr k Hk files Hfiles) as [nm' [Hnm' Hall]].
+          exists nm'. split; [exact Hnm'|]. intros file Hin Hne.
+          assert (Hfr : In file (proc truth (targets_of a rest))).
+          { apply proc_In. split; [|exact Hne]. apply targets_of_In. exists k, files.
+            split; [exact Hk|]. split; assumption. }
+          assert (Hpre : fs_get file fs2 = fs_get file fs).
+          { refine (conform_files_frame _ _ _ _ _ _ _ _ _ _ _ _ _ (fun q => q = file) truth faults _ _ _ _ _ _ _ _ _ _ _ EC
+                                        file eq_refl).
+            intros f Hf Hfne q Hq. subst q.
+            assert (Hfp : In f (proc truth files0)) by (apply proc_In; split; assumption).
+            split.
+            - intros E1. subst f. apply (Hdisj file Hfp Hfr).
+            - intros E1. apply (CF f file); [apply in_or_app; left; exact Hfp|apply in_or_app; right; exact Hfr|].
+              symmetry. exact E1. }
+          rewrite <- Hpre. apply Hall; assumption.
+      + cbn [app] in ND, CF.
+        pose proof (IH _ _ _ _ _ _ H ND CF) as HGr.
+        intros k Hk files Hfiles. destruct Hk as [Hk|Hk].
+        * subst k. rewrite EF in Hfiles. discriminate Hfiles.
+        * apply (HGr k Hk files Hfiles).
+  Qed.
+End Pre.
+
+Section Install.
+  Variable tree : Type.
+  Variable parse_file : path -> bytes -> outcome tree.
+  Variable find : list str -> tree -> option stmt.
+  Variable as_written : stmt -> stmt.
+  Variables (w : nat) (pt : ptable) (it ww : bool).
+  Variable rewrite : list str -> stmt -> tree -> tree * bool.
+  Variable render_node : stmt -> outcome bytes.
+  Variable render_tree : tree -> outcome bytes.
+  Variable parse_truth : kind -> option stmt -> list str -> outcome ir.
+
+  Notation stable_i :=
+    (stable stmt tree ir sync_opts (emit_inst w pt) parse_file find (cmp_inst as_written) opts_inst type_ok_inst).
+  Notation settled_i :=
+    (settled stmt tree ir sync_opts (emit_inst w pt) parse_file find rewrite (cmp_inst as_written) opts_inst
+             type_ok_inst).
+  Notation conf_i :=
+    (conform (emit_inst w pt) parse_file find rewrite (cmp_inst as_written) render_node render_tree opts_inst
+             type_ok_inst).
+  Notation FIX_i :=
+    (FIX_law stmt tree ir sync_opts (emit_inst w pt) parse_file find rewrite (cmp_inst as_written) render_node
+             render_tree opts_inst type_ok_inst).
+  Notation gtruth_i :=
+    (ground_truth (emit_inst w pt) parse_file find rewrite (cmp_inst as_written) render_node render_tree opts_inst
+                  type_ok_inst parse_truth).
+  Notation agrees_i := (agrees_at tree parse_file find it ww).
+  Notation declined_i := (declined_at tree parse_file find as_written w pt rewrite).
+
+  (* the install phase: what the target file held has no definition at the location -- the file is missing, or it
+     parses (an empty file included) and the finder finds nothing *)
+  Definition install_pre_c (c : option bytes) (file : path) (search : list str) : Prop :=
+    c = None
+    \/ exists content t, c = Some content /\ parse_file file content = Ok t /\ find search t = None.
+
+  (* one call, install phase: under FIX the outcome is never the declined one *)
+  Lemma conform_install_stable : FIX_i -> forall fs file search k i fs' b pr,
+      search <> [] -> install_pre_c (fs_get file fs) file search ->
+      conf_i fs file search k i NoFault = (fs', Ok b, pr) -> stable_i fs' file search k i.
+  Proof.
+    intros HF fs file search k i fs' b pr Hs Hpre H. destruct b.
+    - apply (HF _ _ _ _ _ _ _ Hs H).
+    - exfalso.
+      destruct (conform_false_settled _ _ _ _ _ _ _ _ _ _ _ _ _ _ _ _ _ _ _ _ _ H)
+        as [content [t [o [n [H1 [H2 [H3 _]]]]]]].
+      destruct Hpre as [Hn|[content' [t' [Hc [Hp Hf]]]]].
+      + rewrite H1 in Hn. discriminate Hn.
+      + rewrite H1 in Hc. injection Hc as Hc. subst content'. rewrite H2 in Hp. injection Hp as Hp. subst t'.
+        rewrite H3 in Hf. discriminate Hf.
+  Qed.
+
+  Definition G_inst (c : option bytes) (fs' : fsys) (file : path) (s : list str) (k : kind) (i : ir) : Prop :=
+    settled_i fs' file s k i /\ (install_pre_c c file s -> stable_i fs' file s k i).
+
+  Lemma G_inst_ext : forall c fs1 fs2 file s k i,
+      fs_get file fs1 = fs_get file fs2 -> G_inst c fs1 file s k i -> G_inst c fs2 file s k i.
+  Proof.
+    intros c fs1 fs2 file s k i Hg [H1 H2]. split.
+    - eapply settled_ext; eassumption.
+    - intros Hp. eapply stable_ext; [exact Hg|]. apply H2. exact Hp.
+  Qed.
+
+  Lemma G_inst_step : FIX_i -> forall fs file s k i fs' b pr,
+      s <> [] -> conf_i fs file s k i (NoFaults file) = (fs', Ok b, pr) -> G_inst (fs_get file fs) fs' file s k i.
+  Proof.
+    intros HF fs file s k i fs' b pr Hs H. split.
+    - apply (step_settled _ _ _ _ _ _ _ _ _ _ _ _ _ HF _ _ _ _ _ _ _ _ Hs H).
+    - intros Hp. apply (conform_install_stable HF _ _ _ _ _ _ _ _ Hs Hp H).
+  Qed.
+
+  (* the run, target by target, with the pre-state of each target file *)
+  Theorem run_settled_and_installed : FIX_i ->
+      forall fs a truth fs1 eff pr,
+        sync_args_ok a truth ->
+        gtruth_i fs a truth NoFaults = (fs1, Ok eff, pr) ->
+        exists i, truth_ir stmt tree ir parse_file find parse_truth fs1 a truth = Ok i
+                  /\ all_G_pre ir G_inst fs fs1 a truth kinds_in_order i.
+  Proof.
+    intros HF fs a truth fs1 eff pr [ND [CF HT]] H.
+    assert (Hsame : fs_get truth fs1 = fs_get truth fs).
+    { apply (ground_truth_truth_untouched _ _ _ _ _ _ _ _ _ _ _ _ _ _ _ _ _ _ _ _ _ H).
+      intros t Hin Hne. apply HT. apply proc_In. split; assumption. }
+    rewrite ground_truth_unfold in H.
+    destruct (truth_ir stmt tree ir parse_file find parse_truth fs a truth) as [i|e] eqn:Eir; [|discriminate H].
+    exists i. split; [rewrite (truth_ir_ext _ _ _ _ _ _ fs1 fs a truth Hsame); exact Eir|].
+    apply (conform_kinds_establish_pre _ _ _ _ _ _ _ _ _ _ _ _ _ G_inst G_inst_ext NoFaults (G_inst_step HF)
+                                       _ _ _ _ _ _ _ _ _ _ H ND CF).
+  Qed.
+
+  (* per target of kind k: it agrees or was declined; and it agrees when it was installed in this run *)
+  Definition targets_settle_install (fs fs1 : fsys) (a : sync_args) (truth : path) (k : kind) (i : ir) : Prop :=
+    forall files, sa_files a k = Some files ->
+      exists nm, name_of a k = Ok nm
+                 /\ forall file, In file files -> file <> truth ->
+                      (agrees_i fs1 file (strip_split [ch 46] nm) k i
+                       \/ declined_i fs1 file (strip_split [ch 46] nm) k i)
+                      /\ (install_pre_c (fs_get file fs) file (strip_split [ch 46] nm) ->
+                          agrees_i fs1 file (strip_split [ch 46] nm) k i).
+
+  Theorem interface_agreement_install : FIX_i ->
+      forall fs a truth fs1 eff pr,
+        sync_args_ok a truth ->
+        gtruth_i fs a truth NoFaults = (fs1, Ok eff, pr) ->
+        exists i,
+          truth_ir stmt tree ir parse_file find parse_truth fs1 a truth = Ok i
+          /\ forall k, WRITTEN_PARSE_law as_written w pt it ww k ->
+                       (forall nm, name_of a k = Ok nm -> RT_at w pt it ww k (strip_split [ch 46] nm) i) ->
+                       targets_settle_install fs fs1 a truth k i.
+  Proof.
+    intros HF fs a truth fs1 eff pr Hok H.
+    destruct (run_settled_and_installed HF _ _ _ _ _ _ Hok H) as [i [Hir HG]].
+    exists i. split; [exact Hir|]. intros k HW HRT files Hfiles.
+    assert (Hk : In k kinds_in_order) by (destruct k; cbn; tauto).
+    destruct (HG k Hk files Hfiles) as [nm [Hnm Hall]].
+    exists nm. split; [exact Hnm|]. intros file Hin Hne. destruct (Hall file Hin Hne) as [Hset Hinst]. split.
+    - apply (settled_agrees_or_declined tree parse_file find as_written w pt it ww rewrite k fs1 file _ i HW
+                                        (HRT nm Hnm) Hset).
+    - intros Hp. apply (stable_agrees_gen tree parse_file find as_written w pt it ww k fs1 file _ i HW (HRT nm Hnm)).
+      apply Hinst. exact Hp.
+  Qed.
+
+  (* ---- function targets ---- *)
+
+  (* the guard at the name given for functions on the command line *)
+  Definition function_guard_args (a : sync_args) (i : ir) : Prop :=
+    forall nm, name_of a KFunction = Ok nm ->
+               guard_C09_function_found w pt i (last (strip_split [ch 46] nm) (default_name KFunction)) = true.
+
+  (* FIX alone (REPLACES is false of the Locate rewriter on FunctionDef nodes): every function target agrees, or is a
+     found definition that differs and that the rewriter declined (the recorded finding found-definition-not-replaced);
+     and a function target that was installed by this run (file missing, or nothing found at the location) agrees *)
+  Theorem function_targets_settle_install : FIX_i ->
+      forall fs a truth fs1 eff pr,
+        sync_args_ok a truth ->
+        gtruth_i fs a truth NoFaults = (fs1, Ok eff, pr) ->
+        exists i,
+          truth_ir stmt tree ir parse_file find parse_truth fs1 a truth = Ok i
+          /\ (WRITTEN_PARSE_law as_written w pt it ww KFunction -> function_guard_args a i ->
+              targets_settle_install fs fs1 a truth KFunction i).
+  Proof.
+    intros HF fs a truth fs1 eff pr Hok H.
+    destruct (interface_agreement_install HF _ _ _ _ _ _ Hok H) as [i [Hir Hall]].
+    exists i. split; [exact Hir|]. intros HW Hg. apply (Hall KFunction HW).
+    intros nm Hnm. apply RT_at_function. apply (Hg nm Hnm).
+  Qed.
+
+  (* under FIX and REPLACES: every function target agrees *)
+  Theorem function_targets_agree : FIX_i -> REPLACES_law stmt tree find rewrite ->
+      forall fs a truth fs1 eff pr,
+        sync_args_ok a truth ->
+        gtruth_i fs a truth NoFaults = (fs1, Ok eff, pr) ->
+        exists i,
+          truth_ir stmt tree ir parse_file find parse_truth fs1 a truth = Ok i
+          /\ (WRITTEN_PARSE_law as_written w pt it ww KFunction -> function_guard_args a i ->
+              targets_agree tree parse_file find it ww fs1 a truth KFunction i).
+  Proof.
+    intros HF HR fs a truth fs1 eff pr Hok H.
+    destruct (interface_agreement tree parse_file find as_written w pt it ww rewrite render_node render_tree parse_truth
+                                  HF HR _ _ _ _ _ _ Hok H) as [i [Hir [_ [_ [_ Hall]]]]].
+    exists i. split; [exact Hir|]. intros HW Hg. apply (Hall KFunction HW).
+    intros nm Hnm. apply RT_at_function. apply (Hg nm Hnm).
+  Qed.
+End Install.
+
+(* ---- non-vacuity: a function target ---- *)
+
+Definition node9f : stmt :=
+  match emit_inst 100 [] KFunction ir9
+                  (opts_inst (Some (SFunc (L "train") no_arguments [] [] None)) [L "train"] KFunction) with
+  | Ok n => n
+  | Err _ => SReturn None
+  end.
+
+(* a toy tree layer whose rewriter never replaces (as the Locate rewriter on FunctionDef nodes): every rendering is the
+   text F9, which parses to the module [node9f]; any other text parses to the empty module *)
+Module Toy9f.
+  Definition parse_file (p : path) (c : bytes) : outcome (list stmt) :=
+    if str_eqb c (L "F9") then Ok [node9f] else Ok [].
+  Definition find (s : list str) (t : list stmt) : option stmt := hd_error t.
+  Definition rewrite (s : list str) (n : stmt) (t : list stmt) : list stmt * bool := (t, false).
+  Definition render_node (n : stmt) : outcome bytes := Ok (L "F9").
+  Definition render_tree (t : list stmt) : outcome bytes := Ok (L "F9").
+  Definition fs : fsys := [(L "target.py", L "F9")].
+  Definition conf (fs0 : fsys) :=
+    conform (emit_inst 100 []) parse_file find rewrite (cmp_inst (fun n => n)) render_node render_tree opts_inst
+            type_ok_inst fs0 (L "target.py") [L "train"] KFunction ir9 NoFault.
+End Toy9f.
+
+Lemma ir9_function_guard : guard_C09_function_found 100 [] ir9 (L "train") = true.
+Proof. vm_compute. reflexivity. Qed.
+
+Lemma ir9_function_stable :
+  stable stmt (list stmt) ir sync_opts (emit_inst 100 []) Toy9f.parse_file Toy9f.find (cmp_inst (fun n => n)) opts_inst
+         type_ok_inst Toy9f.fs (L "target.py") [L "train"] KFunction ir9.
+Proof.
+  exists (L "F9"), [node9f], node9f, node9f.
+  split; [reflexivity|]. split; [reflexivity|]. split; [reflexivity|].
+  split; [vm_compute; reflexivity|]. split; [discriminate|]. split; [vm_compute; reflexivity|].
+  apply cmp_inst_refl.
+Qed.
+
+(* the truth ir9 (three parameters with defaults) and the function target train: inside the guard for every function
+   type a found node can have; the stable target agrees by the theorem; what parse.function reads; and the install
+   phase: conform on a missing file and on an empty file creates / appends and the result is stable *)
+Example function_target_example :
+  guard_C09_function_found 100 [] ir9 (L "train") = true
+  /\ agrees_at (list stmt) Toy9f.parse_file Toy9f.find false true Toy9f.fs (L "target.py") [L "train"] KFunction ir9
+  /\ (exists i', parse_node_inst false true KFunction node9f = Ok i'
+                 /\ map fst (ir_params i') = [L "epochs"; L "name"; L "rate"]
+                 /\ map (fun kv => g_default (snd kv)) (ir_params i')
+                    = [Some (DV (VInt 5)); Some (DV (VStr (L "mnist"))); Some (DV (VFloat (L "0.5")))]
+                 /\ C03Spec.same_interface_fn (L "static") ir9 i' = true)
+  /\ Toy9f.conf [] = (Toy9f.fs, Ok true, [])
+  /\ (exists fs', Toy9f.conf [(L "target.py", [])] = (fs', Ok true, [])
+                  /\ fs_get (L "target.py") fs' = Some (L "F9")).
+Proof.
+  split; [exact ir9_function_guard|]. split.
+  - apply (stable_agrees_gen (list stmt) Toy9f.parse_file Toy9f.find (fun n => n) 100 [] false true KFunction).
+    + intros i o n _. reflexivity.
+    + apply RT_at_function. exact ir9_function_guard.
+    + exact ir9_function_stable.
+  - split.
+    + vm_compute. eexists. split; [reflexivity|]. repeat split; reflexivity.
+    + split; [vm_compute; reflexivity|]. vm_compute. eexists. split; reflexivity.
+Qed.
+
+(* the clause fn_reparse_fixed is a limit of the proof, not of the code: with a negative default the emitted node is not
+   a fixed point of the re-parse (Constant(-5) against UnaryOp(USub, 5)), the core guard holds, and the parser reads
+   the same interface from both *)
+Definition ir9_neg : ir :=
+  mkIR FNone (Has (L "static")) (Has (L "Train a model."))
+       [(L "epochs", gp9 (L "number of passes.") (L "int") (VInt (-5)))] FNone None.
+
+Lemma function_negative_default_point :
+  guard_C09_function_core 100 [] ir9_neg (L "train") (L "static") = true
+  /\ fn_reparse_fixed 100 [] ir9_neg (L "train") (L "static") = false
+  /\ match emit_function_inst 100 [] ir9_neg (L "train") (Some (L "static")) with
+     | Ok n => match C03Spec.reparse_stmt n with
+               | Ok n' => match parse_function_node n, parse_function_node n' with
+                          | Ok a, Ok b => same_interface ir9_neg a = true /\ same_interface ir9_neg b = true
+                          | _, _ => False
+                          end
+               | Err _ => False
+               end
+     | Err _ => False
+     end.
+Proof. vm_compute. repeat split; reflexivity. Qed.
